@@ -33,7 +33,8 @@ Definition agree (c : case) : bool := agree_lib (lib_of c) && cert_plain c && ce
    the open-interval test without the `positive` guards whenever one of the two is a Barrier.  CoordinateShiftOperation is
    the barrier-like operation without length (channel ALL of all its qubits, duration 0): it occupies no time, so it is
    never the barrier of clause 2; it is treated like every other zero-length operation (it must not sit strictly inside a
-   Barrier; the certificate even demands that it does not sit strictly inside ANY channel-sharing operation). *)
+   Barrier; the strict certificate cert_strict even demands that it does not sit strictly inside ANY channel-sharing
+   operation, which the library circuits also satisfy -- reported, not judged). *)
 Definition is_barrier (o : oentry) : bool := oe_cls o =? C_Barrier.
 Fixpoint barrier_clear (l : list oentry) : bool :=
   match l with
@@ -53,5 +54,9 @@ Definition lib_barrier_clear (c : lcase) : bool :=
 
 Definition spec_ok (c : case) : bool := lib_no_overlap_ok (lib_of c) && lib_barrier_clear (lib_of c).
 
-(* informational: the tie without the certificate (reported in the evidence under extra_functions_false_on) *)
+(* informational (reported in the evidence under extra_functions_false_on, not judged): the tie without the certificate,
+   and the strict certificate (no operation without length strictly inside ANY channel-sharing operation) *)
 Definition agree_model (c : case) : bool := agree_lib (lib_of c).
+Definition cert_strict_plain (c : case) : bool := cert_strict (lc_nodes (lib_of c)).
+Definition cert_strict_unrolled (c : case) : bool :=
+  cert_strict (apply_modifiers (lc_env (lib_of c)) 1 (lc_nodes (lib_of c))).
